@@ -492,7 +492,7 @@ def drivers(tier):
             dict(max_states=1000000, time_budget=900)),
         'empty-names': (TreeDriver(
             'empty-names', ('handle', 'empty', 'layered'), rich_depth=1,
-            layer_targets=('',), clear_targets=('',), key_depth=3,
+            layer_targets=('',), clear_targets=('',), key_depth=2,
             names=('', 'x')),
             dict(max_states=1000000, time_budget=900)),
         'depth2-fixpoint': (TreeDriver(
